@@ -154,7 +154,14 @@ def run(R):
     # everything below is compared on fully inlined text (temporaries do not matter)
     upd = [c for (n, c) in calls_in_ctx(en, attr='update')]
     loops = [n for n in en.cfg.nodes if n.kind == 'for' and any(c in [x for x in ast.walk(n.ast)] for c in upd)]
-    hashed = full_text(en, loops[0].ast.iter) if loops else (full_text(en, upd[0].args[0]) if upd else '?')
+    def listed(e_):
+        # the list of blocks may be a local bound once to a list display
+        if isinstance(e_, ast.Name):
+            ds = [v for n in en.cfg.nodes for (nm, v) in en.cfg.defs_of(n) if nm == e_.id]
+            if len(ds) == 1 and isinstance(ds[0], ast.List):
+                return full_text(en, ds[0])
+        return full_text(en, e_)
+    hashed = listed(loops[0].ast.iter) if loops else (listed(upd[0].args[0]) if upd else '?')
     enc = "super().encode(wire, offset, markers)"
     want = (f'[memoryview({enc})[self._digest_cover_start.get_arg(markers):self._digest_cover_end.get_arg(markers) - self._shrink_len.get_arg(markers)]]')
     if 'self._digest_cover_end.get_arg(markers) - self._shrink_len.get_arg(markers)' not in hashed:
@@ -241,9 +248,22 @@ def run(R):
             if v == 'ret':
                 continue
             if typed and v == 'True':
-                tt = [t for t in cx.cfg.nodes if t.kind == 'test' and 'DIGEST_SHA256' in ast.unparse(t.ast)]
-                cluster = [t for t in cx.cfg.nodes if t.kind == 'test' and tt and t.stmt is tt[0].stmt]
-                if not tt or r.id in cx.cfg.reachable(removed_edges={(t.id, False) for t in cluster}):
+                # valuation "SignatureInfo present and of type DigestSha256": prune the edges the tests on it cannot take, in either polarity
+                tt = [t for t in cx.cfg.nodes if t.kind == 'test' and 'DIGEST_SHA256' in full_text(cx, t.ast)]
+                pruned = set()
+                for t in cx.cfg.nodes:
+                    if t.kind != 'test':
+                        continue
+                    ft = full_text(cx, t.ast)
+                    if 'DIGEST_SHA256' in ft and isinstance(t.ast, ast.Compare) and len(t.ast.ops) == 1:
+                        pruned.add((t.id, not isinstance(t.ast.ops[0], ast.Eq)))        # `== DIGEST` is true, `!= DIGEST` is false
+                    elif ft in ('sig.signature_info', 'sig_info') or ft.endswith('.signature_info'):
+                        pruned.add((t.id, False))                                       # SignatureInfo is present
+                    elif ft.endswith('.signature_info is None'):
+                        pruned.add((t.id, True))
+                    elif ft.endswith('.signature_info is not None'):
+                        pruned.add((t.id, False))
+                if not tt or r.id in cx.cfg.reachable(removed_edges=pruned):
                     probs.append(('True is returned for a digest-typed packet without comparing digests', r.ast))
                 continue
             probs.append((f'returns {v}', r.ast))
